@@ -77,10 +77,16 @@ def main(argv):
 def run_property(prop, pc, kf, tier, seed, sc, t0):
     units = pc['units']
     results = []
+    unit_errors = []
     for u in units:
-        bv = R.build_and_verify(u, sc)
+        try:
+            bv = R.build_and_verify(u, sc)
+        except X.AnchorLost as e:
+            unit_errors.append('%s: anchor lost / unsupported construct: %s' % (u, e))
+            continue
         results.append(bv)
     tool_problems = []
+    undecided = []
     violations = []
     known_hits = []
     obligations = []
@@ -102,7 +108,13 @@ def run_property(prop, pc, kf, tier, seed, sc, t0):
         for f in bv['failures']:
             if not f['semantic']:
                 tool_problems.append('%s: %s in %s: %s' % (bv['unit'], f['kind'], f['function'], f['site']))
-        sem = [f for f in bv['failures'] if f['semantic']]
+        degraded = {m['function'] for m in bv['metas'] if m.get('lost_hints')}
+        sem_all = [f for f in bv['failures'] if f['semantic']]
+        # a function whose injected proof hints were lost gives no Verus verdict when it fails: undecided, handed to Kani
+        sem = [f for f in sem_all if f['function'] not in degraded]
+        for f in sem_all:
+            if f['function'] in degraded:
+                undecided.append('%s::%s (%s; proof hints lost: %s)' % (bv['unit'], f['function'], f['kind'], '; '.join([m for mm in bv['metas'] if mm['function'] == f['function'] for m in mm['lost_hints']][:3])))
         shared = {m['function'] for m in bv['metas'] if m.get('contract_file')}
         if prop == 'C11':
             for m in bv['metas']:
@@ -136,20 +148,25 @@ def run_property(prop, pc, kf, tier, seed, sc, t0):
                 known_hits.append((e, f))
             else:
                 violations.append(f)
-    if prop == 'C11':
+    tool_problems += unit_errors
+    tool_problems += ['undecided (no Verus verdict): ' + x for x in sorted(set(undecided))]
+    if prop == 'C11' and not unit_errors:
         tool_problems += c11_shared_contracts(results)
     kani_results = []
-    if (not tool_problems and tier == 'thorough') or violations:
-        # thorough: every harness of the property; quick: only as triage of a Verus failure (fast harnesses)
-        kani_results = K.run_for_property(prop, sc.dir, include_slow=(tier == 'thorough'))
-    if tool_problems and not violations:
+    if tier == 'thorough' or violations or tool_problems:
+        # thorough: every harness of the property; quick: as triage of a Verus failure (fast harnesses) or, when part of
+        # the property got NO Verus verdict (anchor lost, unsupported construct, lost proof hints), as the fallback that
+        # can still produce a sound verdict: a counterexample on the real code
+        kani_results = K.run_for_property(prop, sc.dir, include_slow=(tier == 'thorough' or bool(tool_problems)))
+    kani_failed = [k for k in kani_results if k['status'] == 'failed' and not known(kf, prop, {'function': k['name'], 'clause': k['failed_checks'], 'site': ''})]
+    if tool_problems and not violations and not kani_failed:
         for t in tool_problems:
-            print('TOOL-LIMIT property=%s %s' % (prop, t))
+            print('TOOL-LIMIT property=%s %s' % (prop, t[:400]))
         return 2
     for t in tool_problems:
         # a definite violation in one unit stands even if another unit could not be built / decided
         print('NOTE property=%s (no verdict for part of the run) %s' % (prop, t[:300]))
-    if not obligations:
+    if not obligations and not kani_failed:
         print('TOOL-LIMIT property=%s no obligations generated (vacuous run)' % prop)
         return 2
     # obligations of functions with a (non-known) failure are undischarged; with only known findings they are listed separately
